@@ -330,8 +330,16 @@ theorem mirror_overlay (fs : Fs) (c : Cfg) (hd : c.dereference = false) (hn : c.
     simp only [List.length_append, List.length_cons, List.length_nil] at this
     omega
   -- the shape of the walk
-  have hshape := walk_shape fs c hd hn src.names tb.names fuel srcNode hcop [] []
-    (by simpa using hsn) (fun h => by rw [hnl] at h; cases h) (by simp only [List.length_nil]; omega)
+  have hshape : walkEntry fs c none (plainPath src.names) (plainPath tb.names) (fuel + 1) [] [] =
+      opsOf srcNode (src.names ++ []) (tb.names ++ []) := by
+    have h1 : fs.root.getAt (src.names ++ []) = some srcNode := by simpa using hsn
+    have h2 : srcNode.isLink = true → ([] : List Name) ≠ [] := fun h => by rw [hnl] at h; cases h
+    have h3 : src.names.length + ([] : List Name).length + fuel < 256 := by
+      simp only [List.length_nil]; omega
+    -- (`walk_shape` takes the no-clobber hypothesis in either of two forms, depending on the revision)
+    first
+      | exact walk_shape fs c hd src.names tb.names (.inl hn) fuel srcNode hcop [] [] h1 h2 h3
+      | exact walk_shape fs c hd hn src.names tb.names fuel srcNode hcop [] [] h1 h2 h3
   rw [← hsrcE, ← htbE] at hshape
   simp only [List.append_nil] at hshape
   -- its execution
@@ -419,5 +427,20 @@ theorem mirror_overlay_keeps (fs : Fs) (c : Cfg) (hd : c.dereference = false) (h
   rw [heq.2.2.2 (tb.names ++ m :: q), hdst]
   simp only [obsAt]
   rw [overlay_keeps_entry fs.root tb.names des ses m q hdst hm]
+
+/-! ## The definitions evaluate (kernel reduction): an instance
+
+The destination directory lists `1`, `2`, `3`; the source lists `2` (a fifo), `4`, `1`.  `1` is rewritten in place,
+`3` is kept, the fifo replaces the regular file `2` and moves to the end, `4` is appended. -/
+
+example : Node.overlay (some (.dir [([1], .file 0), ([2], .file 5), ([3], .dir [])]))
+      (.dir [([2], .special .fifo 0), ([4], .file 7), ([1], .file 9)])
+    = .dir [([1], .file 9), ([3], .dir []), ([2], .special .fifo 0), ([4], .file 7)] := by rfl
+
+example : Compatible (some (.dir [([1], .file 0), ([2], .file 5), ([3], .dir [])]))
+    (.dir [([2], .special .fifo 0), ([4], .file 7), ([1], .file 9)]) := by decide
+
+/-- a regular file onto an existing symbolic link (F13) is not a compatible pair -/
+example : ¬ Compatible (some (.dir [([1], .link ⟨true, [], false⟩)])) (.dir [([1], .file 9)]) := by decide
 
 end Xcp
